@@ -9,7 +9,10 @@ Tie between bldfm.interface.run_bldfm_single / bldfm.config_parser and Model/Int
       hand in this file (by_hand) with numbers selected from the raw dictionary by this file;
   (3) parser correspondence: parse_config_dict vs `parse` (symbolic tokens) on generated dictionaries incl. omitted
       sections/keys, null sections, missing mandatory parts; and a YAML file vs the equal dictionary give equal
-      dataclasses.
+      dataclasses;
+  (4) the configured surface flux itself, utils.ideal_source, against Model/IdealSource.v (Properties/C13Ideal.v):
+      whole-function translation + Bridge/IdealBridge.v (harness/idealslices.py), exact 0/1 patterns against the rational
+      twin and interval-certified Gaussian cells (harness/idealcorr.py).
 The implementation side runs in sub-processes (`python c13.py job in.json out.json`)."""
 import hashlib
 import itertools
@@ -28,7 +31,7 @@ THEOREMS_IDEAL = ["C13i_shape", "C13i_shape_dispatch", "C13i_unknown_shape_zero"
                   "C13i_circle", "C13i_indicator_empty", "C13i_diamond_in_circle", "C13i_circle_not_in_diamond", "C13i_nodes",
                   "C13i_nodes_vs_solver_grid", "C13i_mirror", "C13i_default_symmetric", "C13i_transpose",
                   "C13i_point_closed_form", "C13i_point_positive_decreasing", "C13i_point_max_at_nearest_node",
-                  "C13i_scaling", "C13i_exec_sound"]
+                  "C13i_seen_from_solver_grid", "C13i_point_peak_normalisation", "C13i_scaling", "C13i_exec_sound"]
 TRUSTED = [
     "harness/py2coq_interface.py (fail-closed `ast` transliteration of run_bldfm_single, the _parse_* functions, parse_config_dict, load_config, the dataclass fields/defaults, BLDFMConfig.__post_init__ and TowerConfig.compute_local_xy into the description types of Model/InterfaceDesc.v; positional arguments are resolved in Coq through the callees' signatures read from utils.py / pbl_model.py / solver.py) and the semantics given to those descriptions in Model/InterfaceDesc.v (run_desc, place_desc: Python's None / `is None` / truthiness, dict access, field name -> model projection); Bridge/InterfaceBridge.v and Bridge/ConfigParserBridge.v prove per run that they equal plumb_c / place / the parser tables for ALL arguments, Proofs/InterfaceBridgeLemmas.v relates the tables to Interface.parse_*",
     "Model/Interface.v is hand-written; tied to interface.run_bldfm_single by recording the arguments the four pipeline functions actually receive (exact: bit patterns, array digests, object hand-over) and to config_parser.parse_config_dict by differential execution",
